@@ -1,4 +1,5 @@
 import Driver.Util
+import Driver.C05
 import Driver.C06
 import Driver.C13
 open Lean Drv
@@ -6,6 +7,7 @@ open Lean Drv
 def dispatch (j : Json) : Except String Json := do
   let p ← fld j "p" jStr
   match p with
+  | "C05" => Drv.C05.handle j
   | "C06" => Drv.C06.handle j
   | "C13" => Drv.C13.handle j
   | _ => throw s!"bad-property {p}"
